@@ -52,19 +52,28 @@ HOLES = {
     ('qsmtpd/filters/namebl.c', 'cb_namebl', 'txt'): 'DnsTxt',
     ('qsmtpd/filters/dnsbl.c', 'cb_dnsbl', 'a[i]'): 'Domain',
     ('qsmtpd/filters/dnsbl.c', 'cb_dnsbl', 'txt'): 'DnsTxt',
-    ('qsmtpd/commands.c', 'smtp_helo', 'heloname.s'): 'Domain',
-    ('qsmtpd/commands.c', 'smtp_ehlo', 'heloname.s'): 'Domain',
     ('qsmtpd/commands.c', 'smtp_ehlo', 'authtypes'): 'AuthList',
     ('qsmtpd/commands.c', 'smtp_ehlo', 'sizebuf'): 'NumCRLF',
     ('qsmtpd/commands.c', 'smtp_rcpt', 'todomain'): 'Addr',
     ('qsmtpd/commands.c', 'smtp_rcpt', 'r->to.s'): 'Addr',
-    ('qsmtpd/commands.c', 'smtp_from_inner', 'MAILFROM'): 'Addr',
-    ('qsmtpd/commands.c', 'smtp_quit', 'heloname.s'): 'Domain',
     ('qsmtpd/data.c', 'smtp_data', 'hdrname'): 'HdrName',
     ('qsmtpd/data.c', 'smtp_bdat', 'linein.s + 5'): 'LineArg',
-    ('qsmtpd/qsmtpd.c', 'smtploop', 'heloname.s'): 'Domain',
     ('qsmtpd/auth.c', 'auth_cram', 'slop.s'): 'B64',
 }
+
+# expressions that denote the same global object wherever they are used: expression -> class
+#   heloname.s  control/me read by loadoneliner() (C16_loadoneliner: one line, comment cut, blanks kept) and refused at start-up
+#               unless domainvalid() accepts it (qsmtpd.c:setup; checked by heloname_validated() below); never assigned elsewhere
+#   MAILFROM    xmitstat.mailfrom.s as set by addrparse() in smtp_from_inner(), or ""
+HOLES_GLOBAL = {
+    'heloname.s': 'Domain',
+    'MAILFROM': 'Addr',
+}
+
+
+def hole_class(rel, func, expr):
+    return HOLES.get((rel, func, expr)) or HOLES_GLOBAL.get(expr)
+
 
 # calls that are not replies built by a call site (file, function) -> reason
 WHITELIST = {
@@ -162,10 +171,24 @@ def functions(m, rel):
         hdr = m[h0:s]
         if re.search(r'=\s*$', hdr):
             continue            # an initialiser of a global in column 0
-        hdr = re.sub(r'__attribute__\s*\(\((?:[^()]|\((?:[^()]|\([^()]*\))*\))*\)\)', ' ', hdr)
-        names = re.findall(r'\b(\w+)\s*\(', hdr)
-        if not names:
+        # the identifier in front of the parameter list that ends right before the body
+        j = s - 1
+        while j > 0 and m[j] in ' \t\n':
+            j -= 1
+        if m[j] != ')':
+            continue            # not a function body (macro body, initialiser)
+        depth, k = 0, j
+        while k > 0:
+            if m[k] == ')': depth += 1
+            elif m[k] == '(':
+                depth -= 1
+                if depth == 0:
+                    break
+            k -= 1
+        mo = re.search(r'(\w+)\s*$', m[max(0, k - 80):k])
+        if not mo or mo.group(1) in ('if', 'while', 'for', 'switch', '__attribute__'):
             raise TranslateError('%s: cannot find the name of the function whose body starts in line %d' % (rel, lineno(m, s)))
+        names = [mo.group(1)]
         fs.append(Func(names[0], s, e))
     return fs
 
@@ -556,7 +579,8 @@ def analyse(repo):
     macros = load_macros(repo)
     files = source_files(repo)
     globals_ = load_globals(repo, files)
-    literals, writen, multiline, holes, notes = [], [], [], [], []
+    literals, writen, multiline, holes, notes, sequences = [], [], [], [], [], []
+    writers = writer_functions(repo, files)
     ml_capacity = {}
     for rel in files:
         ctx = Ctx(repo, rel, macros, globals_)
@@ -574,7 +598,7 @@ def analyse(repo):
             if rel == 'lib/netio.c' and f.name in ('net_writen', 'netwrite') and mo.group(1) == 'netnwrite':
                 continue                                   # the writers themselves
             calls.append((mo.start(), mo.group(1), f))
-        per_func_lits = {}
+        per_func = {}            # function name -> [dict(pos, where, kind, ...)] every reply-writing call, in source order
         for pos, fn, f in calls:
             where = '%s:%d' % (rel, lineno(txt, pos))
             if (rel, f.name) in WHITELIST:
@@ -606,7 +630,7 @@ def analyse(repo):
                         raise TranslateError('%s: netwrite(%s): cannot follow the variable' % (where, name))
                 else:
                     raise TranslateError('%s: netwrite(%s): argument is not a string literal' % (where, arg))
-                per_func_lits.setdefault(f.name, []).append((pos, where, alts))
+                per_func.setdefault(f.name, []).append(dict(pos=pos, end=cp, where=where, kind='L', alts=alts, f=f))
                 continue
             # net_writen / net_write_multiline
             am = re.fullmatch(r'(\w+)(?:\s*\+\s*!!\s*(\w+))?', arg)
@@ -628,6 +652,7 @@ def analyse(repo):
                             continue
                         raise TranslateError('%s: %s(%s) can be reached with an empty array' % (where, fn, arg))
                     final.add(c)
+            call_shapes = []
             for n, sh in enumerate(sorted(final)):
                 key = '%s#%d' % (where, n)
                 els = []
@@ -635,33 +660,57 @@ def analyse(repo):
                     if e[0] == 'L':
                         els.append(('L', list(e[1])))
                     else:
-                        cls = HOLES.get((rel, f.name, e[1]))
+                        cls = hole_class(rel, f.name, e[1])
                         if cls is None:
                             raise TranslateError('%s: %s(): embedded string `%s` has no source class (add it to HOLES in tools/translators/replies.py '
                                                  'after finding out where the string comes from)' % (where, f.name, e[1]))
                         els.append(('H', cls, e[1]))
                         holes.append((key, e[1], cls))
                 (writen if fn == 'net_writen' else multiline).append((key, rel, f.name, lineno(txt, pos), els))
+                call_shapes.append((key, els))
                 if fn == 'net_write_multiline':
                     ml_capacity[key] = capacity
-        # netwrite literals of one function: join continuation pieces
-        for fname, lst in per_func_lits.items():
-            lst.sort()
-            i = 0
-            while i < len(lst):
-                pos, where, alts = lst[i]
-                if len(alts) == 1 and incomplete(alts[0]):
-                    joined, names = list(alts[0]), [where]
-                    while incomplete(joined):
-                        i += 1
-                        if i >= len(lst) or len(lst[i][2]) != 1:
-                            raise TranslateError('%s: reply ends in a continuation line and no further netwrite() follows in %s()' % (where, fname))
-                        joined += list(lst[i][2][0]); names.append(lst[i][1].split(':')[-1])
-                    literals.append(('+'.join(names), fname, joined))
+            per_func.setdefault(f.name, []).append(dict(pos=pos, end=cp, where=where, kind='W' if fn == 'net_writen' else 'M', shapes=call_shapes, f=f))
+        # replies assembled from several calls: a literal that ends in a continuation line ("NNN-...") must be followed, on
+        # every path, by the call that goes on with the reply.  Accepted: straight-line code in between (simple statements
+        # that call no function which writes to the client); everything else is an error (see follow_open).
+        for fname, lst in per_func.items():
+            lst.sort(key=lambda c: c['pos'])
+            used = set()
+            for i, c in enumerate(lst):
+                if i in used:
+                    continue
+                if c['kind'] != 'L':
+                    continue
+                if len(c['alts']) == 1 and incomplete(c['alts'][0]):
+                    pieces, names, cur, j = [('L', list(c['alts'][0]))], [c['where']], c, i
+                    while True:
+                        nxt = follow_open(ctx, cur, lst, writers)
+                        j = lst.index(nxt)
+                        used.add(j)
+                        names.append(nxt['where'].split(':')[-1])
+                        if nxt['kind'] == 'L':
+                            if len(nxt['alts']) != 1:
+                                raise TranslateError('%s: the reply opened here is continued by a netwrite() of a variable' % c['where'])
+                            pieces.append(('L', list(nxt['alts'][0])))
+                            if incomplete(nxt['alts'][0]):
+                                cur = nxt
+                                continue
+                        else:
+                            pieces.append((nxt['kind'], nxt['shapes']))
+                        break
+                    key = '+'.join(names)
+                    if all(p[0] == 'L' for p in pieces):
+                        literals.append((key, fname, [b for p in pieces for b in p[1]]))
+                        sequences.append((key, fname, pieces))
+                    else:
+                        for n, (skey, els) in enumerate(pieces[-1][1]):
+                            sequences.append(('%s#%d' % (key, n), fname, pieces[:-1] + [(pieces[-1][0], els)]))
                 else:
-                    for k, a in enumerate(alts):
-                        literals.append((where if len(alts) == 1 else '%s/%d' % (where, k), fname, list(a)))
-                i += 1
+                    for k, a in enumerate(c['alts']):
+                        if incomplete(a):
+                            raise TranslateError('%s: one of the literals written here ends in a continuation line' % c['where'])
+                        literals.append((c['where'] if len(c['alts']) == 1 else '%s/%d' % (c['where'], k), fname, list(a)))
     # tls_out: s1 is a literal at every call
     st = mask(clean(read(repo, 'qsmtpd/starttls.c')))
     stt = clean(read(repo, 'qsmtpd/starttls.c'))
@@ -669,7 +718,85 @@ def analyse(repo):
     nlit = len(re.findall(r'\btls_out\s*\(\s*"', stt))
     if ncall < 1 or ncall != nlit:
         raise TranslateError('qsmtpd/starttls.c: tls_out() is called with a first argument that is not a literal')
-    return dict(literals=literals, writen=writen, multiline=multiline, capacity=ml_capacity, holes=holes, notes=notes)
+    heloname_validated(repo)
+    return dict(literals=literals, writen=writen, multiline=multiline, capacity=ml_capacity, holes=holes, notes=notes, sequences=sequences)
+
+
+WRITE_RE = re.compile(r'\b(netwrite|net_writen|net_write_multiline|netnwrite)\s*\(')
+
+
+def writer_functions(repo, files):
+    """names of the functions that (directly or through calls) write to the client"""
+    direct, calls = set(), {}
+    for rel in files:
+        t = mask(clean(read(repo, rel)))
+        t = re.sub(r'^[ \t]*#[^\n]*', '', t, flags=re.M)
+        for f in functions(t, rel):
+            body = t[f.start:f.end]
+            if WRITE_RE.search(body):
+                direct.add(f.name)
+            calls.setdefault(f.name, set()).update(re.findall(r'\b(\w+)\s*\(', body))
+    w = set(direct) | {'netwrite', 'net_writen', 'net_write_multiline', 'netnwrite'}
+    changed = True
+    while changed:
+        changed = False
+        for fn, cs in calls.items():
+            if fn not in w and cs & w:
+                w.add(fn); changed = True
+    return w
+
+
+def follow_open(ctx, c, lst, writers):
+    """c: a call that leaves a reply open.  Returns the call of the same function that continues it, provided the code in
+    between is straight-line: the opening call is a statement of its own, then simple statements (no braces, no control
+    keyword, no label, no call of a function that writes to the client), then a simple statement with exactly one writing call."""
+    m = ctx.m
+    f = c['f']
+    ss = stmt_start(m, c['pos'], f.start)
+    if not re.fullmatch(r'(\(\s*void\s*\))?', m[ss:c['pos']].strip()) or not re.match(r'\s*;', m[c['end'] + 1:]):
+        raise TranslateError('%s: a reply is left open by a call that is part of an expression or condition' % c['where'])
+    pos = m.index(';', c['end']) + 1
+    while True:
+        e = pos
+        depth = 0
+        while e < f.end and not (m[e] == ';' and depth == 0):
+            if m[e] in '([': depth += 1
+            elif m[e] in ')]': depth -= 1
+            elif m[e] in '{}' and depth == 0:
+                raise TranslateError('%s: the reply opened here is not continued by straight-line code (a block starts or ends in line %d)' %
+                                     (c['where'], lineno(ctx.txt, e)))
+            e += 1
+        st = m[pos:e]
+        if re.search(r'\b(if|else|for|while|do|switch|case|default|goto|break|continue|return)\b', st) or re.match(r'\s*\w+\s*:(?!:)', st):
+            raise TranslateError('%s: the reply opened here is not continued on every path (control statement in line %d)' %
+                                 (c['where'], lineno(ctx.txt, pos + len(st) - len(st.lstrip()))))
+        ws = [x for x in lst if pos <= x['pos'] < e]
+        called = set(re.findall(r'\b(\w+)\s*\(', st))
+        if ws:
+            if len(ws) != 1 or (called & writers) - {'netwrite', 'net_writen', 'net_write_multiline'}:
+                raise TranslateError('%s: cannot tell what continues the reply opened here (line %d)' % (c['where'], lineno(ctx.txt, ws[0]['pos'])))
+            return ws[0]
+        if called & writers:
+            raise TranslateError('%s: %s() is called while the reply opened here is not finished; it writes to the client' %
+                                 (c['where'], sorted(called & writers)[0]))
+        pos = e + 1
+
+
+def heloname_validated(repo):
+    """qsmtpd.c: heloname is control/me, refused at start-up unless domainvalid() accepts it, and assigned nowhere else"""
+    t = clean(read(repo, 'qsmtpd/qsmtpd.c'))
+    if not re.search(r'int\s+j\s*=\s*loadoneliner\s*\(\s*controldir_fd\s*,\s*"me"\s*,\s*&heloname\.s\s*,\s*0\s*\)\s*;\s*if\s*\(\s*j\s*<\s*0\s*\)\s*return\s+errno\s*;\s*'
+                     r'heloname\.len\s*=\s*j\s*;\s*if\s*\(\s*domainvalid\s*\(\s*heloname\.s\s*\)\s*\)\s*\{[^}]*return\s+EINVAL\s*;\s*\}', t):
+        raise TranslateError('qsmtpd/qsmtpd.c: heloname is no longer loaded from control/me and checked with domainvalid() at start-up; '
+                             'the class Domain of the hole heloname.s is not justified')
+    for rel in source_files(repo):
+        mm = mask(clean(read(repo, rel)))
+        for mo in re.finditer(r'\bheloname\s*(\.\s*s\s*)?=(?!=)|&\s*heloname\b', mm):
+            ln = lineno(mm, mo.start())
+            line = mm.split('\n')[ln - 1]
+            if rel == 'qsmtpd/qsmtpd.c' and ('loadoneliner' in line or 'heloname.len = j' in line):
+                continue
+            raise TranslateError('%s:%d: heloname is assigned outside of the start-up code' % (rel, ln))
 
 
 def incomplete(b):
@@ -822,6 +949,21 @@ def gen_replies(repo):
             desc = ' '.join(('"%s"' % show(e[1])) if e[0] == 'L' else '<%s:%s>' % (e[2], e[1]) for e in els)
             rows.append('  (* %s %s(): %s *)\n  (%s, %s, %s)' % (key, fn, desc, coq_str(key), coq_str(fn), render_elems(els)))
         out += ';\n'.join(rows) + '\n].\n\n'
+    out += '(* replies assembled from several calls: a netwrite() of a literal that ends in a continuation line and the calls that\n'
+    out += '   follow it on every path (straight-line code) up to the call that ends the reply; one entry per shape of that call.\n'
+    out += '   Every literal that is NOT in netwrite_literals on its own is the opening piece of exactly one entry here. *)\n'
+    out += 'Definition reply_sequences : list (list N * list N * list piece) := [\n'
+    rows = []
+    for key, fn, pieces in a['sequences']:
+        ps = []
+        for pc in pieces:
+            if pc[0] == 'L':
+                ps.append('PLit %s' % coq_bytes(pc[1]))
+            else:
+                ps.append('%s %s' % ('PWriten' if pc[0] == 'W' else 'PMulti', render_elems(pc[1])))
+        desc = ' | '.join(show(pc[1]) if pc[0] == 'L' else ' '.join(('"%s"' % show(e[1])) if e[0] == 'L' else '<%s>' % e[2] for e in pc[1]) for pc in pieces)
+        rows.append('  (* %s %s(): %s *)\n  (%s, %s, [%s])' % (key, fn, desc, coq_str(key), coq_str(fn), '; '.join(ps)))
+    out += ';\n'.join(rows) + '\n].\n\n'
     caps = sorted(set(a['capacity'].values()))
     if len(caps) > 1:
         raise TranslateError('net_write_multiline sites with different array sizes: extend the generator')
@@ -848,7 +990,22 @@ def gen_replies(repo):
     return out
 
 
-GENERATORS = {'GenReplies.v': gen_replies}
+def gen_names(repo):
+    """the names of the table entries as Coq strings, in table order: only used to name the entry in the message of a failing proof
+    (a string type inside the tables themselves would shadow OCaml's string in the extracted module)"""
+    a = analyse(repo)
+    def lst(name, items):
+        return 'Definition %s : list string := [\n%s\n].\n\n' % (name, ';\n'.join('  "%s"' % x.replace('"', '""') for x in items))
+    out = ('(* GENERATED by tools/translate.py (translators/replies.py) -- do not edit; rewritten on every check run *)\n'
+           'From Coq Require Import List String.\nImport ListNotations.\nOpen Scope string_scope.\n\n')
+    out += lst('netwrite_literal_names', ['%s %s' % (w, fn) for w, fn, b in a['literals']])
+    out += lst('writen_template_names', ['%s %s' % (k, fn) for k, rel, fn, line, els in a['writen']])
+    out += lst('multiline_template_names', ['%s %s' % (k, fn) for k, rel, fn, line, els in a['multiline']])
+    out += lst('reply_sequence_names', ['%s %s' % (k, fn) for k, fn, ps in a['sequences']])
+    return out
+
+
+GENERATORS = {'GenReplies.v': gen_replies, 'GenReplyNames.v': gen_names}
 
 if __name__ == '__main__':
     import sys, pprint
